@@ -36,6 +36,7 @@ import (
 	"strconv"
 	"strings"
 	"time"
+	"unicode/utf16"
 	"unicode/utf8"
 )
 
@@ -338,11 +339,8 @@ func filterEscapejs(in *Value, param *Value) (*Value, *Error) {
 
 	idx := 0
 	for idx < len(sin) {
+		// (an invalid byte decodes to U+FFFD and is written as that; nothing is dropped)
 		c, size := utf8.DecodeRuneInString(sin[idx:])
-		if c == utf8.RuneError {
-			idx += size
-			continue
-		}
 
 		if c == '\\' {
 			// Escape seq?
@@ -370,6 +368,10 @@ func filterEscapejs(in *Value, param *Value) (*Value, *Error) {
 
 		if (c >= 'a' && c <= 'z') || (c >= 'A' && c <= 'Z') || c == ' ' || c == '/' {
 			b.WriteRune(c)
+		} else if c > 0xFFFF {
+			// JavaScript's \uXXXX takes exactly four digits: a surrogate pair
+			r1, r2 := utf16.EncodeRune(c)
+			b.WriteString(fmt.Sprintf(`\u%04X\u%04X`, r1, r2))
 		} else {
 			b.WriteString(fmt.Sprintf(`\u%04X`, c))
 		}
